@@ -5,7 +5,7 @@
        W16|W8 <T> <call sizes csv> <samples csv> <stored codes csv>     sf_write_short / sf_write_int in the given partition, close, codes read from the file
        R16|R8 <T> <seek target or -1> <last_16 before the seek> <call sizes csv> <stored codes csv> <values csv>   re-open, optional dpcm_seek (after an optional first read), reads in the given partition
    "-" stands for an empty list.
-   usage: kern_dpcm <seed> <n> <tmpdir> */
+   usage: kern_dpcm <seed> <n> <tmpdir> [w|r|wr]     (report the write side, the read side, or both) */
 #include <stdio.h>
 #include <stdlib.h>
 #include <string.h>
@@ -20,6 +20,7 @@ static int in32 [MAXN], out32 [MAXN] ;
 static short in16 [MAXN], out16 [MAXN] ;
 static signed char in8 [MAXN], out8 [MAXN] ;
 static short scratch16 [MAXN] ; static int scratch32 [MAXN] ;
+static int want_w = 1, want_r = 1 ;	/* which side of the codec this run reports (a property about written bytes is not decided by the decoder) */
 
 static void csv_i (const int *v, int n) { if (n == 0) printf ("-") ; for (int k = 0 ; k < n ; k++) printf (k ? ",%d" : "%d", v [k]) ; }
 static void csv_s (const short *v, int n) { if (n == 0) printf ("-") ; for (int k = 0 ; k < n ; k++) printf (k ? ",%d" : "%d", v [k]) ; }
@@ -48,6 +49,7 @@ static void kernels (int cases)
 		int n = pick_len (k) ;
 		short l0 = (short) pick_val (16) ;
 		int which = k % 8 ;
+		{	int is_w = (which == 0 || which == 1 || which == 4 || which == 5) ; if ((is_w && ! want_w) || (! is_w && ! want_r)) continue ; }
 		if (which >= 4 && (k & 8)) l0 = (short) (l0 & ~0xFF) ;		/* the 8-bit kernels leave a multiple of 256 behind; arbitrary values are tried too */
 		xi.last_16 = l0 ;
 		switch (which)
@@ -97,6 +99,7 @@ static void api (int cases, const char *dir)
 		int n ;
 		switch (k % 7) { case 0 : n = 0 ; break ; case 1 : n = 1 ; break ; case 2 : n = 4096 + (int) (rnd64 () % 3) - 1 ; break ; case 3 : n = 8192 + (int) (rnd64 () % 3) - 1 ; break ;
 			case 4 : n = 9000 + (int) (rnd64 () % 2000) ; break ; default : n = (int) (rnd64 () % 300) ; }
+		int bw = wide ? 2 : 1 ;
 		int sizes [64], ns = 0, left = n ;
 		while (left > 0 && ns < 63) { int c = (int) (rnd64 () % 4) == 0 ? left : 1 + (int) (rnd64 () % (uint64_t) left) ; if (rnd64 () % 3 == 0 && c > 5000) c = 4096 + (int) (rnd64 () % 3) - 1 ; if (c > left) c = left ; sizes [ns++] = c ; left -= c ; }
 		if (left > 0) sizes [ns++] = left ;
@@ -112,7 +115,7 @@ static void api (int cases, const char *dir)
 			off += sizes [c] ;
 			}
 		sf_close (sf) ;
-		int bw = wide ? 2 : 1 ;
+		if (! want_w) goto read_side ;
 		printf ("W%d %c ", wide ? 16 : 8, useint ? 'i' : 's') ;
 		if (ns == 0) printf ("-") ; for (int c = 0 ; c < ns ; c++) printf (c ? ",%d" : "%d", sizes [c]) ;
 		printf (" ") ; if (useint) csv_i (in32, n) ; else csv_s (in16, n) ; printf (" ") ;
@@ -120,6 +123,12 @@ static void api (int cases, const char *dir)
 		for (int i = 0 ; i < n ; i++) { if (wide) out16 [i] = (short) (raw [2 * i] | (raw [2 * i + 1] << 8)) ; else out8 [i] = (signed char) raw [i] ; }
 		if (wide) csv_s (out16, n) ; else csv_c (out8, n) ;
 		printf ("\n") ;
+read_side :
+		if (! want_w)
+		{	if (! okw || read_tail (path, raw, n * bw) != 0) continue ;
+			for (int i = 0 ; i < n ; i++) { if (wide) out16 [i] = (short) (raw [2 * i] | (raw [2 * i + 1] << 8)) ; else out8 [i] = (signed char) raw [i] ; }
+			}
+		if (! want_r) continue ;
 		/* read side: the same file, optional seek, reads in another partition */
 		for (int pass = 0 ; pass < 2 ; pass++)
 		{	memset (&info, 0, sizeof (info)) ;
@@ -165,6 +174,7 @@ static void api (int cases, const char *dir)
 int main (int argc, char **argv)
 {	uint64_t seed = argc > 1 ? strtoull (argv [1], NULL, 0) : 1 ; int n = argc > 2 ? atoi (argv [2]) : 1000 ;
 	const char *dir = argc > 3 ? argv [3] : "." ;
+	if (argc > 4) { want_w = strchr (argv [4], 'w') != NULL ; want_r = strchr (argv [4], 'r') != NULL ; }
 	prng_seed (seed, 0xD9C3) ;
 	kernels (n) ;
 	api (n / 20 + 14, dir) ;
